@@ -173,6 +173,12 @@ pub fn c13(h: &mut H) {
                 ("v_tiny", "v", Integer::from(7)),
                 ("s_short", "s", Integer::from(field(&sig, "s") >> 12u32)),
                 ("s_zero", "s", Integer::from(0)),
+                // ... and components at and beyond the top of their nominal size: an unblinded s = r + r' can have
+                // ls + 1 bits, e has exactly le bits
+                ("s_one_bit_longer", "s", Integer::from(pow2(p.ls) + 5u32)),
+                ("s_all_ones_ls_plus_1", "s", Integer::from(pow2(p.ls + 1) - 1u32)),
+                ("e_all_ones", "e", Integer::from(pow2(p.le) - 1u32)),
+                ("v_max", "v", Integer::from(&k.n_mod - 1u32)),
             ] {
                 let z = sig_with(&sig, f, &val);
                 let (bo, _) = call(h, "cl.sigbytes", vec![z.clone()], vec![]);
